@@ -440,7 +440,8 @@ def leaves(rng=None):
     L = [("str", l) for l in LITS] + [("insens", b"a"), ("insens", b"Ab"), ("range", 0x61, 0x63), ("range", 0x80, 0x7FF),
                                       ("charby", "any"), ("charby", "digit"), ("charby", "alpha"), ("skip", 1), ("skip", 2),
                                       ("skip_until", [b"a"]), ("skip_until", [b"ab", b"b"]), ("skip_until", [b"a", b"b", b"c"]),
-                                      ("skip_until", [b"a", b"b", b"c", b"d"]), ("skip_until", []), ("skip_until", [b"a", b"b", b""]), ("skip_until", [b"", b"a"]), ("skip_until", [b""]), ("skip_until", ["é".encode(), b"b"]), ("soi",), ("eoi",),
+                                      ("skip_until", [b"a", b"b", b"c", b"d"]), ("skip_until", []), ("skip_until", [b"ab", b"ac"]), ("skip_until", [b"ac", b"ab"]), ("skip_until", ["é".encode(), "ü".encode()]), ("skip_until", [b"ab", b"ac", b"aa"]), ("skip_until", [b"a", b"ab"]),
+                                      ("skip_until", [b"ba", b"a", b"bb"]), ("skip_until", [b"a", b"b", b""]), ("skip_until", [b"", b"a"]), ("skip_until", [b""]), ("skip_until", ["é".encode(), b"b"]), ("soi",), ("eoi",),
                                       ("push_lit", b"a"), ("drop",), ("match_peek",), ("match_pop",), ("peek_slice", 0, None, False),
                                       ("peek_slice", -1, None, True), ("peek_slice", 0, 1, True), ("peek_slice", 1, -1, False), ("peek_slice", 5, None, True)]
     return L
